@@ -101,6 +101,7 @@ def execute(sc):
             ctl.point('aw')
             if dur > 0:
                 await asyncio.sleep(dur)
+            ctl.log('AwDone', c=c)
             if aw.get('out') == 'exc':
                 raise EXC[aw.get('exccls', 'plain')](c)
             return ('val', c)
@@ -116,6 +117,7 @@ def execute(sc):
 
             def resolve():
                 ctl.log('AwEval', c=c, thr=ctl.me_name(), loop=loop_for_objects.vname)
+                ctl.log('AwDone', c=c)
                 if aw.get('out') == 'exc':
                     fut.set_exception(EXC[aw.get('exccls', 'plain')](c))
                 else:
